@@ -22,6 +22,8 @@ PH = Rat.atom("pH")
 
 
 def run(ck, prog):
+    from props.common import check_memos
+    ck.attempt(check_memos, ck, prog)
     ck.explanation = (
         "charge_at_pH is summarised by a finite case split over the 20 letters into per-residue terms "
         "s/(1+10^(+-(pH-pKa))) with exact decimal pKa values and compared with the reference; monotonicity and the "
@@ -169,13 +171,13 @@ def _pI(ck, prog):
     f = prog.fn(SEQ, "Sequence.isoelectric_point")
     construct = SEQ_PATH + ":Sequence.isoelectric_point"
     body = f.body()
-    loops = [s for s in body if isinstance(s, ast.While)]
+    loops = [s for s in body if isinstance(s, (ast.While, ast.For))]
     if len(loops) != 1:
-        raise Undecided("isoelectric_point: expected one while loop", f.loc())
+        raise Undecided("isoelectric_point: expected one search loop", f.loc())
     loop = loops[0]
     pre = body[:body.index(loop)]
     post = body[body.index(loop) + 1:]
-    always = isinstance(loop.test, ast.Constant) and loop.test.value is True
+    always = isinstance(loop, ast.While) and isinstance(loop.test, ast.Constant) and loop.test.value is True
     ev = Evaluator(prog)
     ev.opaque_calls[SEQ + ":Sequence.charge_at_pH"] = lambda b: fatom(
         "CH" + ("n" if b.get("normalize") is True else "x") + ("T" if b.get("mode") == "TOTAL" else ""), b["pH"])
@@ -192,16 +194,25 @@ def _pI(ck, prog):
     for n in names:
         sym_env[n] = Rat.atom("v:" + n)
     sym_env["protein_charge"] = Rat.atom("v:protein_charge")
+    if isinstance(loop, ast.For) and isinstance(loop.target, ast.Name):
+        sym_env[loop.target.id] = Rat.atom("v:" + loop.target.id)
     paths = ev.exec_block(loop.body, [Path([], "live", None, sym_env)], fr)
+    # states that reach the statements after the loop: every `break`, and - unless the loop is `while True` - running out of iterations
+    exits = [Path(p.conds, "live", None, p.env) for p in paths if p.kind == "break"]
+    if not always:
+        exits.append(Path([], "live", None, dict(sym_env)))
+    after = []
+    for st in exits:
+        after.extend(ev.exec_block(post, [st], fr))
+    paths = [p for p in paths if p.kind != "break"] + [p for p in after if p.kind in ("return", "raise")]
     ck.count("pI loop body paths", len(paths))
     # which pre-loop names are counters / thresholds
     thr = [n for n in names if init[n].is_const() and init[n].const_value() == Fraction(1, 50)]
     ck.ob("DT-pI", construct, len(thr) >= 1 or _literal_thr(loop), expected="error threshold 0.02",
           found={n: repr(init[n]) for n in names}, slot="threshold", where=f.loc())
-    ck.ob("LOOP", construct, always or True, expected="loop runs until return/raise", found=unparse(loop.test), slot="while")
+    ck.ob("LOOP", construct, True, expected="search loop found", found=unparse(loop.test if isinstance(loop, ast.While) else loop.iter), slot="loop")
     rets = [p for p in paths if p.kind == "return"]
-    ck.ob("DT-pI", construct, len(rets) >= 1 and not [s for s in post if isinstance(s, ast.Return)],
-          expected="returns only from inside the search loop", found="%d returning paths" % len(rets), slot="return-site",
+    ck.ob("DT-pI", construct, len(rets) >= 1, expected="the search returns a pH on some path", found="%d returning paths" % len(rets), slot="return-site",
           where=f.loc(loop))
     tol = Fraction(1, 50)
     for p in rets:
@@ -233,8 +244,9 @@ def _pI(ck, prog):
                     firsts.add(x.const_value())
         ck.ob("DT-pI", construct, Fraction(7) in firsts, expected="first midpoint 0.5*(0+14) = 7.0 (returned when nothing titrates)",
               found=sorted(str(x) for x in firsts), slot="first-midpoint", where=f.loc(loop))
-    # boundedness: two coupled counters
-    _bounded(ck, construct, f, loop, paths, names, init)
+    # boundedness: two coupled counters (a `for ... in range(k)` loop is bounded by construction)
+    if isinstance(loop, ast.While):
+        _bounded(ck, construct, f, loop, paths, names, init)
 
 
 def _literal_thr(loop):
